@@ -22,7 +22,7 @@ func runC04(e *env) error {
 		b.ValModes = 7
 		b.Spec = ""
 	}
-	for _, b := range plain {
+	for _, b := range append(plain, skip...) {
 		b.Spec = "fragment" // only ask whether the plans lie in the fragment of the composite theorems
 	}
 	if e.thorough {
@@ -71,7 +71,8 @@ func runC04(e *env) error {
 	}
 	e.rep.Note("converters executed: %d; race-detector batches: %d", res.Generated, map[bool]int{true: 2, false: 0}[e.thorough])
 	if res.FragmentAsked > 0 {
-		e.rep.Note("deep-copy converters whose generated plan passes PlanCheck.checkProg, i.e. for which theorem C04_composite shows for ALL source values that every cell of the result is allocated during the call: %d of %d", res.InFragment, res.FragmentAsked)
+		e.rep.Note("converters whose generated plan passes PlanCheckS.checkProgS, i.e. for which theorem C04_skipcopy_composite shows for ALL source values that every shared cell sits at an identical-type position: %d of %d (%d have such a position)", res.InFragmentS, res.FragmentAsked, res.HasShare)
+		e.rep.Note("converters (deep-copy and skipCopySameType batches together) whose generated plan passes PlanCheck.checkProg, i.e. for which theorem C04_composite shows for ALL source values that every cell of the result is allocated during the call: %d of %d", res.InFragment, res.FragmentAsked)
 	}
 	return nil
 }
